@@ -3,6 +3,7 @@
 //                (per variable: x, x_reported, v_fdiff, v_reported, potential/kinetic energy, ft_reported,
 //                applied_force(); per bias: bias_energy, centres, acc_work, abmd reference, alb couplings)
 //   capture      send the module's log to a buffer;  wlog: print which files it reported writing since the last wlog
+//   gdump        print the count / force-sum grids of ABF biases and the hills-energy grid of metadynamics biases
 //   flush        flush all output streams of the module (files are then complete on disk)
 //   chdir D      change the working directory (output files are created relative to it)
 // Reads scenarios from stdin/argv[1].
@@ -32,6 +33,9 @@
 #include "colvarbias_restraint.h"
 #include "colvarbias_abmd.h"
 #include "colvarbias_alb.h"
+#include "colvarbias_abf.h"
+#include "colvarbias_meta.h"
+#include "colvargrid.h"
 
 struct c19_session : public vsim_session {
   std::ostringstream cap;
@@ -66,6 +70,26 @@ struct c19_session : public vsim_session {
           std::string f = l.substr(q + 28);
           f = f.substr(0, f.find('"'));
           if (f.size() > 4 && f.substr(f.size() - 4) == ".dat") o << "WROTE bias " << f << " it=" << cvm::step_absolute() << "\n";
+        }
+      }
+      return true;
+    }
+    if (cmd == "gdump") {
+      // the grids behind the output files of ABF (counts, force sums) and metadynamics (tabulated hills energy)
+      for (colvarbias *b : proxy->colvars->biases) {
+        if (colvarbias_abf *a = dynamic_cast<colvarbias_abf *>(b)) {
+          o << "GA " << a->name << " it=" << cvm::step_absolute() << " samples=";
+          for (size_t i = 0; i < a->samples->data.size(); i++) { if (i) o << ","; o << a->samples->data[i]; }
+          o << " gradients=";
+          for (size_t i = 0; i < a->gradients->data.size(); i++) { if (i) o << ","; o << vs_hex(a->gradients->data[i]); }
+          o << "\n";
+        }
+        if (colvarbias_meta *m = dynamic_cast<colvarbias_meta *>(b)) {
+          if (m->hills_energy) {
+            o << "GM " << m->name << " it=" << cvm::step_absolute() << " energy=";
+            for (size_t i = 0; i < m->hills_energy->data.size(); i++) { if (i) o << ","; o << vs_hex(m->hills_energy->data[i]); }
+            o << "\n";
+          }
         }
       }
       return true;
